@@ -167,4 +167,16 @@ MUTANTS = {
         "d12_reverted": [("_handlers/query_handler.py", "                        if record.key == question.key and question.type in (record.type, _TYPE_ANY)", "                        if True")],
         "history_subset_test_inverted": [("_history.py", "        if previous_known_answers - known_answers:", "        if known_answers - previous_known_answers:")],
     },
+    "C18": {
+        "expired_records_used": [("_services/info.py", "        if record.is_expired(now):\n            return False\n\n        record_key = record.key", "        record_key = record.key")],
+        "deadline_off_by_one_pass": [("_services/info.py", "                if last <= now:\n                    return False", "                if last + 300 <= now:\n                    return False")],
+        "complete_without_address": [("_services/info.py", "        return bool(self.text is not None and (self._ipv4_addresses or self._ipv6_addresses))", "        return bool(self.text is not None and (self.port is not None or self._ipv4_addresses or self._ipv6_addresses))")],
+        "first_request_inverted": [("_services/info.py", "                    this_question_type = question_type or QU_QUESTION if first_request else QM_QUESTION", "                    this_question_type = question_type or QM_QUESTION if first_request else QU_QUESTION")],
+        "wait_ignores_deadline": [("_services/info.py", "                await self.async_wait(min(next_, last) - now, zc.loop)", "                await self.async_wait(next_ - now, zc.loop)")],
+        "d13_reverted": [("_services/info.py", "        for cached_srv_record in cache.get_all_by_details(self._name, _TYPE_SRV, _CLASS_IN):", "        for cached_srv_record in cache.get_all_by_details(self._name, _TYPE_SRV, _CLASS_IN)[-1:]:")],
+        "expired_addresses_loaded": [("_services/info.py", "            if record.is_expired(now):\n                continue\n            ip_addr = get_ip_address_object_from_record(record)", "            ip_addr = get_ip_address_object_from_record(record)")],
+        "addresses_not_reloaded_on_srv_change": [("_services/info.py", "            if old_server_key != self.server_key:\n                self._set_ipv4_addresses_from_cache(zc, now)\n                self._set_ipv6_addresses_from_cache(zc, now)", "            if False:\n                pass")],
+        # not listed: dropping the early `return True` after _load_from_cache is equivalent (the query loop is
+        # guarded by `while not self._is_complete`)
+    },
 }
